@@ -16,6 +16,7 @@ dirs = sorted(d for d in os.listdir(os.path.join(V, "seeded")) if os.path.exists
 if args:
     dirs = [d for d in dirs if d in args]
 dirs = [d for i, d in enumerate(dirs) if i % of == lane]
+EXTRA = json.load(open(os.path.join(V, "seeded", "CHECKS.json"))) if os.path.exists(os.path.join(V, "seeded", "CHECKS.json")) else {}
 vhead = subprocess.check_output(["git", "-C", V, "rev-parse", "--short", "HEAD"], text=True).strip()
 rhead = subprocess.check_output(["git", "-C", "/repo", "rev-parse", "--short", "HEAD"], text=True).strip()
 for d in dirs:
@@ -32,9 +33,15 @@ for d in dirs:
             m["recheck"] = {"verif": vhead, "repo_head": rhead, "applies": False, "note": a.stdout[-300:]}
         else:
             t0 = time.time()
-            p = subprocess.run([sys.executable, os.path.join(V, "check.py"), pid, "quick"], cwd=V, env=dict(os.environ, VERIF_REPO=wt), stdout=subprocess.PIPE, stderr=subprocess.STDOUT, text=True)
-            viol = [l for l in p.stdout.splitlines() if l.startswith("VIOLATION")]
-            m["recheck"] = {"verif": vhead, "repo_head": rhead, "applies": True, "exit": p.returncode, "violation_lines": len(viol), "detected": p.returncode == 1 and len(viol) > 0, "wall_s": round(time.time() - t0, 1)}
+            # the property the seed author aimed at, plus other checks known to report it (seeded/CHECKS.json)
+            res = {}
+            for cid in EXTRA.get(d, [pid]):
+                p = subprocess.run([sys.executable, os.path.join(V, "check.py"), cid, "quick"], cwd=V, env=dict(os.environ, VERIF_REPO=wt), stdout=subprocess.PIPE, stderr=subprocess.STDOUT, text=True)
+                viol = [l for l in p.stdout.splitlines() if l.startswith("VIOLATION")]
+                res[cid] = {"exit": p.returncode, "violation_lines": len(viol)}
+            own = res.get(pid, {"exit": None, "violation_lines": 0})
+            m["recheck"] = {"verif": vhead, "repo_head": rhead, "applies": True, "exit": own["exit"], "violation_lines": own["violation_lines"], "by_check": res,
+                            "detected": any(v["exit"] == 1 and v["violation_lines"] > 0 for v in res.values()), "wall_s": round(time.time() - t0, 1)}
         json.dump(m, open(mp, "w"), indent=1)
         print(d, m["recheck"], flush=True)
     finally:
